@@ -495,6 +495,8 @@ pub struct ConnRec {
 pub struct RecRelay {
     pub addr: String,
     pub conns: Arc<Mutex<Vec<Arc<ConnRec>>>>,
+    /// while set, nothing is forwarded in either direction (connections stay open): a silent path
+    pub hold: Arc<std::sync::atomic::AtomicBool>,
     task: tokio::task::JoinHandle<()>,
 }
 
@@ -542,10 +544,13 @@ pub async fn start_rec_relay(server_addr: String) -> Option<RecRelay> {
     let addr = l.local_addr().ok()?.to_string();
     let conns: Arc<Mutex<Vec<Arc<ConnRec>>>> = Arc::new(Mutex::new(Vec::new()));
     let c2 = conns.clone();
+    let hold = Arc::new(std::sync::atomic::AtomicBool::new(false));
+    let hold2 = hold.clone();
     let task = tokio::spawn(async move {
         loop {
             let Ok((c, _)) = l.accept().await else { continue };
             let _ = c.set_nodelay(true);
+            let (h_up, h_down) = (hold2.clone(), hold2.clone());
             let rec = Arc::new(ConnRec::default());
             c2.lock().unwrap().push(rec.clone());
             let sa = server_addr.clone();
@@ -562,6 +567,9 @@ pub async fn start_rec_relay(server_addr: String) -> Option<RecRelay> {
                         match cr.read(&mut buf).await {
                             Ok(0) | Err(_) => break,
                             Ok(n) => {
+                                while h_up.load(std::sync::atomic::Ordering::SeqCst) {
+                                    tokio::time::sleep(Duration::from_millis(20)).await;
+                                }
                                 p.feed(&buf[..n], &r1.c2s, &r1.garbage);
                                 if sw.write_all(&buf[..n]).await.is_err() {
                                     break;
@@ -579,6 +587,9 @@ pub async fn start_rec_relay(server_addr: String) -> Option<RecRelay> {
                         match sr.read(&mut buf).await {
                             Ok(0) | Err(_) => break,
                             Ok(n) => {
+                                while h_down.load(std::sync::atomic::Ordering::SeqCst) {
+                                    tokio::time::sleep(Duration::from_millis(20)).await;
+                                }
                                 p.feed(&buf[..n], &r2.s2c, &r2.garbage);
                                 if cw.write_all(&buf[..n]).await.is_err() {
                                     break;
@@ -593,5 +604,5 @@ pub async fn start_rec_relay(server_addr: String) -> Option<RecRelay> {
             });
         }
     });
-    Some(RecRelay { addr, conns, task })
+    Some(RecRelay { addr, conns, hold, task })
 }
